@@ -18,6 +18,7 @@ fn gen_stream(rng: &mut Rng, i: usize) -> (bool, Vec<u8>, Vec<usize>) {
     for j in 0..nmsg {
         let mut o = msg_opts_for(rng, i + j);
         o.storage = Some(sh);
+        o.dict = i % 4 == 0;
         if !rng.chance(1, 25) {
             o.target_total = None;
             o.max_blob = 40;
@@ -231,6 +232,36 @@ pub fn gen_readers(rng: &mut Rng, thorough: bool, op: u32, out: &mut Cases) {
             }
         }
     }
+    // a maximum-length record that is NOT the first one, with a fragment of the source ending 1..17 bytes before its
+    // end (and before its start): whatever is already buffered then is almost, but not quite, the whole record
+    for sh in [true, false] {
+        let storage = if sh { 16usize } else { 0 };
+        let mut short = vec![0u8; storage];
+        if sh {
+            short[..4].copy_from_slice(b"DLT\x01");
+        }
+        short.extend_from_slice(&[0x20, 1, 0, 8, 1, 2, 3, 4]);
+        for l in [65535usize, 65520, 65519] {
+            let mut one = vec![0u8; storage + l];
+            if sh {
+                one[..4].copy_from_slice(b"DLT\x01");
+            }
+            one[storage] = 0x20;
+            one[storage + 2] = (l >> 8) as u8;
+            one[storage + 3] = l as u8;
+            let mut b = short.clone();
+            b.extend_from_slice(&one);
+            let end_big = b.len();
+            b.extend_from_slice(&short);
+            for k in [1usize, 2, 8, 15, 16, 17] {
+                push_reader_case(out, op, sh, &None, 0, &[(end_big - k) as u64], &b);
+                push_reader_case(out, op, sh, &None, 0, &[(short.len() + 3) as u64, (end_big - k - short.len() - 3) as u64, 0, 5], &b);
+                if k % 8 == 0 {
+                    push_reader_case(out, op, sh, &None, 0, &[(short.len() + k) as u64, 65535, 1], &b);
+                }
+            }
+        }
+    }
     // a reader built with its own (small) maximum message length: messages up to exactly that length, both modes
     for sh in [false, true] {
         let storage = if sh { 16usize } else { 0 };
@@ -252,6 +283,56 @@ pub fn gen_readers(rng: &mut Rng, thorough: bool, op: u32, out: &mut Cases) {
                 b.extend_from_slice(&[0x20, 1, 0, 8, 1, 2, 3, 4]);
                 for sched in [vec![], vec![7u64; 80], vec![0, 3, 0, 1000]] {
                     push_reader_case_mml(out, op, sh, &None, 0, mml as u128, &sched, &b);
+                }
+            }
+        }
+    }
+    // messages built around the literals of the source under test, alone and between ordinary messages
+    for m in crate::gen::dict_msgs(rng, None) {
+        let sh = m.storage_header.is_some();
+        let b = match std::panic::catch_unwind(|| m.as_bytes()) {
+            Ok(b) => b,
+            Err(_) => continue,
+        };
+        let other = crate::genmsg::gen_message(rng, &crate::genmsg::MsgOpts { storage: Some(sh), max_blob: 10, ..crate::genmsg::MsgOpts::default() });
+        let ob = std::panic::catch_unwind(|| other.as_bytes()).unwrap_or_default();
+        let mut s3 = ob.clone();
+        s3.extend_from_slice(&b);
+        s3.extend_from_slice(&ob);
+        for sched in [vec![], vec![0u64, 5, 0, 4096]] {
+            push_reader_case(out, op, sh, &None, 0, &sched, &b);
+            push_reader_case(out, op, sh, &None, 0, &sched, &s3);
+        }
+        push_reader_case(out, op, sh, &None, 0, &[], &s3[..s3.len() - 1]);
+    }
+    // record lengths next to the numeric constants of the source under test (buffer sizes, thresholds),
+    // each as the first record of a fresh reader and after a short one
+    for n0 in crate::dict::dict().numbers.iter().cloned() {
+        for sh in [false, true] {
+            let storage = if sh { 16usize } else { 0 };
+            for delta in 0..20usize {
+                let l = (n0 as usize + 2).saturating_sub(delta);
+                if l < 8 || l > 65535 {
+                    continue;
+                }
+                let mut one = vec![0u8; storage + l];
+                if sh {
+                    one[..4].copy_from_slice(b"DLT\x01");
+                }
+                one[storage] = 0x20;
+                one[storage + 2] = (l >> 8) as u8;
+                one[storage + 3] = l as u8;
+                let mut short = one[..storage].to_vec();
+                short.extend_from_slice(&[0x20, 1, 0, 8, 1, 2, 3, 4]);
+                let mut b = one.clone();
+                b.extend_from_slice(&short);
+                push_reader_case(out, op, sh, &None, 0, &[], &b);
+                if delta % 4 == 0 {
+                    let mut b2 = short.clone();
+                    b2.extend_from_slice(&one);
+                    b2.extend_from_slice(&one);
+                    push_reader_case(out, op, sh, &None, 0, &[3, 0, 100000], &b2);
+                    push_reader_case(out, op, sh, &None, *rng.pick(&[65551u128, 70000]), &[], &b2[..b2.len() - 1]);
                 }
             }
         }
@@ -329,6 +410,65 @@ pub fn gen_c18(rng: &mut Rng, thorough: bool, out: &mut Cases) {
     };
     push(&mk(TypeInfoKind::UnsignedFixedPoint(FloatWidth::Width32), Value::U32(1000), 0x3f80_0000, FixedPointValue::I32(-200)), out);
     push(&mk(TypeInfoKind::SignedFixedPoint(FloatWidth::Width64), Value::I64(7785), 0x3c23_d70a, FixedPointValue::I64(-50)), out);
+    // the cross product of the boundary values, quantizations and offsets (no combination left to chance)
+    let specials: Vec<Value> = vec![
+        Value::U64((1 << 53) + 1), Value::U64((1 << 53) + 3), Value::U64((1 << 53) - 1), Value::U64(u64::MAX), Value::U64(1 << 63),
+        Value::I64(-(1 << 53) - 1), Value::I64((1 << 53) + 1), Value::I64(i64::MIN), Value::I64(i64::MAX),
+        Value::U32(u32::MAX), Value::U32((1 << 24) + 1), Value::I32(i32::MIN), Value::I32(-(1 << 24) - 1), Value::U8(255), Value::I8(-128),
+        Value::U16(0), Value::I16(-1),
+    ];
+    for v in &specials {
+        for q in quants.iter() {
+            for signed in [false, true] {
+                for o in offs32.iter() {
+                    let kind = if signed { TypeInfoKind::SignedFixedPoint(FloatWidth::Width32) } else { TypeInfoKind::UnsignedFixedPoint(FloatWidth::Width32) };
+                    push(&mk(kind, v.clone(), *q, FixedPointValue::I32(*o)), out);
+                }
+                for o in offs64.iter() {
+                    let kind = if signed { TypeInfoKind::SignedFixedPoint(FloatWidth::Width64) } else { TypeInfoKind::UnsignedFixedPoint(FloatWidth::Width64) };
+                    push(&mk(kind, v.clone(), *q, FixedPointValue::I64(*o)), out);
+                }
+            }
+        }
+    }
+    // products that land ON an integer or one / a few ulps next to it (where truncation, rounding and "close
+    // enough" differ): pick a quantization, solve for the value, keep the pair when value * quantization (in f64, as
+    // the crate computes it) is within 4 ulps of the target
+    {
+        let targets: [f64; 12] = [1.0, 2.0, 3.0, 7.0, 10.0, 100.0, 255.0, 65536.0, 16777216.0, 2147483648.0, 4294967296.0, 9007199254740992.0];
+        let tries = if thorough { 400_000 } else { 60_000 };
+        let mut kept = 0;
+        for t in 0..tries {
+            let e = 0x20 + rng.below(0x60) as u32; // exponent field: 2^-95 .. 2^0
+            let q = f32::from_bits((e << 23) | (rng.next() as u32 & 0x007f_ffff) | if t % 8 == 0 { 0x8000_0000 } else { 0 });
+            let target = targets[t % targets.len()];
+            let ideal = target / (q as f64).abs();
+            if !(ideal >= 1.0 && ideal < 1.8e19) {
+                continue;
+            }
+            for v in [ideal.floor() as u64, ideal.ceil() as u64] {
+                let p = (v as f64) * (q as f64).abs();
+                let ulps = ((p.to_bits() as i64) - (target.to_bits() as i64)).abs();
+                if ulps <= 4 && (ulps != 0 || t % 4 == 0) {
+                    let neg = q < 0.0;
+                    let value = if neg && v <= i64::MAX as u64 { Value::I64(-(v as i64)) } else if v <= u32::MAX as u64 && t % 2 == 0 { Value::U32(v as u32) } else { Value::U64(v) };
+                    let w64 = t % 3 != 0;
+                    let kind = match (t % 2 == 0, w64) {
+                        (true, true) => TypeInfoKind::SignedFixedPoint(FloatWidth::Width64),
+                        (false, true) => TypeInfoKind::UnsignedFixedPoint(FloatWidth::Width64),
+                        (true, false) => TypeInfoKind::SignedFixedPoint(FloatWidth::Width32),
+                        (false, false) => TypeInfoKind::UnsignedFixedPoint(FloatWidth::Width32),
+                    };
+                    let off = if w64 { FixedPointValue::I64(*rng.pick(&offs64)) } else { FixedPointValue::I32(*rng.pick(&offs32)) };
+                    push(&mk(kind, value, q.to_bits(), off), out);
+                    kept += 1;
+                }
+            }
+            if kept > (if thorough { 40_000 } else { 6_000 }) {
+                break;
+            }
+        }
+    }
     let n = if thorough { 400_000 } else { 30_000 };
     for i in 0..n {
         let signed = rng.bool();
